@@ -247,6 +247,12 @@ class ImplRun(object):
             k = op['k']
             o = None
             c = {kk: vv for kk, vv in op.items() if kk != 'from'}
+            refs = [op.get(x) for x in ('lib', 'dst', 'src') if x in op]
+            if any(r >= len(self.libs) for r in refs):
+                # an earlier operation (a load) did not do here what the generator assumed; the history ends here and
+                # that earlier operation is reported by the comparison
+                ctx.count('histories_cut_at_dangling_reference')
+                break
             with contextlib.redirect_stdout(buf):
                 if k == 'load':
                     name = U.lib_names[op['L']]
@@ -380,9 +386,19 @@ def check_histories(ctx, histories, fresh, f1_fixed, U):
         for req in baseline_requests(U, c, m, conc, idx):
             fresh.want(req)
     fresh.flush()
-    # ---- compare
+    # ---- compare, history by history; once model and implementation have parted ways in a history (already reported), the
+    # rest of that history is not comparable (handles differ) and is skipped
+    diverged = set()
     for conc, idx, c, o, m in plan:
+        if id(conc) in diverged:
+            ctx.count('ops_skipped_after_divergence')
+            continue
+        n0 = len(ctx.disagreements)
+        if 'badRef' in m:
+            raise common.MachineryError('generated history has a dangling reference: %r' % c)
         compare(ctx, U, fresh, conc, idx, c, o, m, f1_fixed)
+        if len(ctx.disagreements) > n0 and c['k'] in ('load', 'estimate'):
+            diverged.add(id(conc))
 
 
 est_err = {}
@@ -441,8 +457,6 @@ def compare(ctx, U, fresh, conc, idx, c, o, m, f1_fixed):
         ctx.case((json.dumps(decl, sort_keys=True), kind_of_prefix(conc, idx, c)) if prior_same else None,
                  {'op': c, 'declared': decl, 'impl': o if k != 'load' else {kk: vv for kk, vv in o.items()}})
     ctx.count('ops_' + k)
-    if 'badRef' in m:
-        raise common.MachineryError('generated history has a dangling reference: %r' % c)
     if k == 'load':
         if 'loaded' in m:
             b = fresh.get({'kind': 'data', 'prov': U.prov(m['data'])})
@@ -551,6 +565,107 @@ def kind_of_prefix(conc, idx, c):
     return ','.join(ks)
 
 
+# ---------------------------------------------------------------------------------------------- shrinking
+class isolated(object):
+    """run checks without leaving a trace in ctx; the violations found inside are available as `.found`"""
+    FIELDS = ('violations', 'known_seen', 'disagreements', 'broken', 'stats', 'evaluations', 'nontrivial', 'samples')
+
+    def __init__(self, ctx):
+        self.ctx = ctx
+
+    def __enter__(self):
+        import copy
+        self.saved = {f: copy.copy(getattr(self.ctx, f)) for f in self.FIELDS}
+        self.n0 = len(self.ctx.violations)
+        self.k0 = {k: v['count'] for k, v in self.ctx.known_seen.items()}
+        return self
+
+    def __exit__(self, *a):
+        self.found = list(self.ctx.violations[self.n0:])
+        self.known = {k: v['count'] - self.k0.get(k, 0) for k, v in self.ctx.known_seen.items() if v['count'] > self.k0.get(k, 0)}
+        for f, v in self.saved.items():
+            setattr(self.ctx, f, v)
+        for k, n in self.k0.items():
+            self.ctx.known_seen[k]['count'] = n
+        return False
+
+
+def materialize(ops, keep):
+    """the sub-history `keep` (indices into the concrete history `ops`), with handles renumbered; operations whose
+    library / estimate is no longer created are dropped"""
+    lib_map, est_map, out = {}, {}, []
+    nlib = nest = 0
+    for i, c in enumerate(ops):
+        made_lib = c['k'] == 'load' and c.get('_made') is not None
+        made_est = c['k'] == 'estimate' and c.get('_made') is not None
+        if i not in keep:
+            continue
+        c2 = strip(c)
+        try:
+            if c['k'] in ('decompose', 'estimate'):
+                c2['lib'] = lib_map[c['lib']]
+            elif c['k'] == 'merge':
+                c2['dst'], c2['src'] = lib_map[c['dst']], lib_map[c['src']]
+            elif c['k'] == 'evaluate':
+                c2['est'] = est_map[c['est']]
+        except KeyError:
+            continue
+        if made_lib:
+            lib_map[c['_made']] = nlib
+            nlib += 1
+        if made_est:
+            est_map[c['_made']] = nest
+            nest += 1
+        out.append(c2)
+    return out
+
+
+def shrink_violation(ctx, U, fresh, f1_fixed, v):
+    """delta-debugging on the operations of the history of violation `v` (same `what` must still be reported)"""
+    hist = v['input'].get('history')
+    if not hist or len(hist) < 3:
+        return
+    # learn which operations created which handles
+    with isolated(ctx):
+        conc, outs = ImplRun(U).run(ctx, [dict(c) for c in hist], ctx.rng)
+    ops = []
+    for c, o in zip(conc, outs):
+        if c is None:
+            continue
+        c = dict(c)
+        if o and 'loaded' in o:
+            c['_made'] = o['loaded']
+        if o and 'estimated' in o:
+            c['_made'] = o['estimated']
+        ops.append(c)
+
+    def fails(keep):
+        sub = materialize(ops, set(keep))
+        if not sub:
+            return False
+        if ctx.time_left() < 200:
+            return False
+        with isolated(ctx) as iso:
+            conc2, outs2 = ImplRun(U).run(ctx, sub, ctx.rng)
+            link_estimates(conc2, outs2)
+            check_histories(ctx, [(conc2, outs2)], fresh, f1_fixed, U)
+        ctx.count('shrink_trials')
+        return any(x['what'] == v['what'] and x.get('finding') == v.get('finding') for x in iso.found)
+    idx = list(range(len(ops)))
+    if not fails(idx):
+        return
+    small = common.shrink_list(idx, fails, max_steps=45)
+    sub = materialize(ops, set(small))
+    with isolated(ctx) as iso:
+        conc2, outs2 = ImplRun(U).run(ctx, sub, ctx.rng)
+        link_estimates(conc2, outs2)
+        check_histories(ctx, [(conc2, outs2)], fresh, f1_fixed, U)
+    hit = [x for x in iso.found if x['what'] == v['what'] and x.get('finding') == v.get('finding')]
+    if hit:
+        v['input'] = dict(hit[0]['input'], shrunk_from=len(hist))
+        v['expected'], v['observed'] = hit[0]['expected'], hit[0]['observed']
+
+
 def run(ctx):
     rng = ctx.rng
     wk.quiet()
@@ -564,7 +679,7 @@ def run(ctx):
     for fname, rec in common.load_corpus('C15'):
         ctx.count('corpus')
         replay(ctx, rec, fresh=fresh, U=U, f1_fixed=f1_fixed)
-    n_hist = ctx.n(int(os.environ.get('C15_N', 32)), 1000)
+    n_hist = ctx.n(int(os.environ.get('C15_N', 32)), 400)
     block = 40
     # per run (seed) a sub-universe, so that fresh results are shared between histories; the thorough tier uses everything
     if ctx.thorough():
@@ -591,6 +706,11 @@ def run(ctx):
         check_histories(ctx, histories, fresh, f1_fixed, U)
         done += len(histories)
     singleton_crosscheck(ctx, fresh)
+    seen = set()
+    for v in ctx.violations:
+        if v['what'] not in seen and isinstance(v.get('input'), dict) and ctx.time_left() > 300:
+            seen.add(v['what'])
+            shrink_violation(ctx, U, fresh, f1_fixed, v)
     if not ctx.searching and not ctx.violations and not ctx.disagreements and ctx.driver_ok:
         floor = {'F26_seen': 1, 'merge_ok': 1, 'evaluate_elemental': 20, 'evaluate_plain': 20, 'decompose_ok': 20, 'estimate_ok': 20}
         for k, v in floor.items():
@@ -623,7 +743,8 @@ def singleton_crosscheck(ctx, fresh):
         k, single, batched = bad[0]
         ctx.violation('a result computed alone in a fresh process differs from the same request after other requests in one process',
                       {'request': json.loads(k)}, expected=single, observed=batched)
-    ctx.assumption('batched-baselines', not bad, '%d batched fresh results re-run one per process' % len(sample))
+    # a difference is itself a history dependence (reported above as a violation), not a failure of the harness
+    ctx.assumption_checks['batched-baselines'] = {'ok': not bad, 'detail': '%d batched fresh results re-run one per process' % len(sample)}
 
 
 def strip(c):
